@@ -369,7 +369,7 @@ def configs(tier, rng):
            'kw': rng.random() < 0.25}
     if i % 6 == 2:
       cfg['model'] = 'plain2'
-    if tier == 'quick' and cfg['model'] == 'dict':
+    if cfg['model'] == 'dict' and (tier == 'quick' or i % 40):
       cfg['pkind'] = cfg['bkind'] = 'dict'        # every new params / batch container kind re-traces ~45 metric configurations
     elif tier == 'quick':
       cfg['pkind'] = ['tuple', 'namedtuple', 'none', 'ordered'][i % 4]
@@ -662,6 +662,12 @@ def _run_config(cfg):
   key = json.dumps(cfg, sort_keys=True)
   if key in st['memo']:
     return st['memo'][key]
+  # thousands of large compiled programs in one process have crashed XLA's CPU compiler (segmentation fault inside
+  # backend_compile_and_load): drop the compilation caches from time to time
+  st['n_configs'] = st.get('n_configs', 0) + 1
+  if st['n_configs'] % 250 == 0:
+    jax.clear_caches()
+    st.pop('merge_fn_dict', None); st.pop('merge_fn_plain', None); st.pop('merge_fn_plain2', None)
   variant = cfg.get('pool', 'std')
   ps = pool_stats(cfg['pool_seed'], variant)
   pool = ps['pool']
